@@ -160,7 +160,13 @@ def one_model(ctx, imp, tag):
     orig = before_all[gid]
     mh = __import__('vlib.core', fromlist=['digest']).digest(orig)
     w = {'kind': kind, 'via': via, 'script': site.script, 'delegations': site.delegations}
-    guids = {d: f'adm-{d}-{tag}' for d in del_ids} if rng.random() < 0.5 else None
+    # graph ids for the partitions: none supplied, all supplied, or only some (the others are then chosen by the library)
+    gm = rng.random()
+    guids = {d: f'adm-{d}-{tag}' for d in del_ids} if gm < 0.6 else None
+    if guids and gm < 0.3:
+        for d in rng.sample(sorted(guids, key=repr), rng.randrange(0, len(guids) + 1)):
+            del guids[d]
+        ctx.count('guids:partial' if guids else 'guids:empty-mapping')
     try:
         adms = arm.generate_adms(delegation_guids=guids)
     except Exception as e:
@@ -179,10 +185,15 @@ def one_model(ctx, imp, tag):
             used |= set(e)
     if set(adms) != used:
         ctx.violation('C13/partition-set-differs', 'one model per delegation id in use', dict(w, got=sorted(adms), expected=sorted(used)))
+    gids = [adm.graph_id for adm in adms.values()]
+    if len(set(gids)) != len(gids) or gid in gids:
+        ctx.violation('C13/partitions-share-a-graph', 'one model per delegation id: every partition is a graph of its own',
+                      dict(w, supplied=guids, graph_ids={repr(d): a.graph_id for d, a in adms.items()}))
+        return
     for d, adm in sorted(adms.items()):
         part = after_all.get(adm.graph_id)
         ctx.count('partitions')
-        if guids and adm.graph_id != guids[d]:
+        if guids and d in guids and adm.graph_id != guids[d]:
             ctx.violation('C13/partition-graph-id', 'a partition uses the graph id supplied for its delegation', dict(w, delegation=d))
         if part is None:
             ctx.violation('C13/partition-empty', 'a partition exists in the store', dict(w, delegation=d))
